@@ -1,6 +1,6 @@
 (* Harness.v: dispatch from a decoded case (function name, arguments) to the model.
    Part of the correspondence harness. *)
-From CCT Require Import Prelude Hex Num Time Formats Json Auth Signing Construct Sha256 Wire Keys Gpg.
+From CCT Require Import Prelude Hex Num Time Formats Json Auth Signing Construct Sha256 Wire Keys Gpg Cli.
 Open Scope N_scope.
 
 Definition unit_res (r : res unit) : res pv := x <- r ;; Ok VNone.
@@ -82,7 +82,7 @@ Section Run.
                 let (t, vs) := st in
                 if is_ok (verify_root ed_verify sha t u) then (u, VBool true :: vs) else (t, VBool false :: vs) in
               let (t, vs) := fold_left step offers (a, []) in
-              fb <- canonserialize t ;; Ok (VList [VList (rev vs); VBytes fb])
+              fb <- canonserialize t ;; Ok (VList [VList (rev_append vs []); VBytes fb])
           | _ => Unmodelled
           end
         else if is (U"serialize_and_sign") then serialize_and_sign ed_sign a b
@@ -105,6 +105,33 @@ Section Run.
         else if is (U"key_to_hex") then match cls_of a with Some c => key_to_hex c b | None => Unmodelled end
         else if is (U"key_from_hex") then match cls_of a with Some c => key_from_hex c b | None => Unmodelled end
         else if is (U"sign_raw") then match a, b with VBytes sd, VBytes m => Ok (VBytes (ed_sign sd m)) | _, _ => Unmodelled end
+        else if is (U"cli_verify_metadata") then
+          let o (v : pv) : option (option pv) := match v with VList [] => Some None | VList [x] => Some (Some x) | _ => None end in
+          match o a, o b with
+          | Some t, Some u =>
+              match cli_verify_metadata ed_verify sha t u with
+              | Exit c s => Ok (VList [VInt c; VBool s])
+              | Crash => Ok (VStr (U"crash"))
+              | CliUnmodelled => Unmodelled
+              end
+          | _, _ => Unmodelled
+          end
+        else if is (U"cli_sign_artifacts") then
+          let o (v : pv) : option (option pv) := match v with VList [] => Some None | VList [x] => Some (Some x) | _ => None end in
+          match o a, o b with
+          | Some kt, Some r =>
+              match (match kt with None => Some None | Some (VStr s) => Some (Some s) | _ => None end) with
+              | Some kt' =>
+                  match cli_sign_artifacts ed_pub ed_sign kt' r with
+                  | Signed w => Ok (VList [VStr (U"signed"); w])
+                  | SignExit c => Ok (VInt c)
+                  | SignCrash => Ok (VStr (U"crash"))
+                  | SignUnmodelled => Unmodelled
+                  end
+              | None => Unmodelled
+              end
+          | _, _ => Unmodelled
+          end
         else if is (U"pub_of_seed") then match a with VBytes sd => Ok (VBytes (ed_pub sd)) | _ => Unmodelled end
         else Unmodelled
     | [a; VList seeds1; c; VList seeds2] =>
